@@ -79,7 +79,7 @@ func runPlanCase(rep *vevid.Report, c planCase) {
 		Choose:      ch,
 	})
 	if err := root.MakePlan(); err != nil {
-		vevid.Fatal("MakePlan failed for a legal query: %v", err)
+		vevid.OpFailed("MakePlan failed for a legal query: %v", err)
 	}
 	viol := func(clause, site, format string, a ...interface{}) {
 		rep.Violate(vevid.Violation{Clause: clause, Scenario: scen, Site: site,
